@@ -8,7 +8,7 @@ LEVEL = 'proof'
 DRIVER = 'drv_c16'
 HARNESS = 'c16.cpp'
 SOURCES = ['src/monitoring/OnlineAverage.cpp', 'src/monitoring/OnlineVariance.cpp']
-PROOF_MODULES = ['RomeaProofs.Properties.C16', 'RomeaProofs.Bridge.C16', 'RomeaProofs.Bridge.C16Cor']
+PROOF_MODULES = ['RomeaProofs.Properties.C16', 'RomeaProofs.Bridge.C16', 'RomeaProofs.Bridge.C16Cor', 'RomeaProofs.Bridge.C16Extra', 'RomeaProofs.Bridge.C16ExtraCor']
 TRUSTED = ['harness/c16.cpp reads the protected members index_/data_.size()/sumOfData_ through subclasses',
            'the double->long long conversion and the final floating-point divisions are executed at Float in the driver '
            '(compared bit-for-bit / within 4 ulp), the theorems are about the integer state and exact rational statistics',
@@ -49,6 +49,14 @@ BRIDGE_SPEC = {
         {'cxx': 'RingOfEigenVector::clear'},
         {'cxx': 'RingOfEigenVector::size'},
         {'cxx': 'RingOfEigenVector::operator[]'},
+        # leftovers (round b4): one-argument (delegating) and copy constructors, setWindowSize / getWindowSize
+        {'cxx': 'OnlineAverage::OnlineAverage', 'sig': '(const double &)', 'suffix': '_1'},
+        {'cxx': 'OnlineAverage::OnlineAverage', 'sig': 'const romea::core::OnlineAverage &', 'suffix': '_copy'},
+        {'cxx': 'OnlineAverage::setWindowSize'},
+        {'cxx': 'OnlineAverage::getWindowSize'},
+        {'cxx': 'OnlineVariance::OnlineVariance', 'sig': '(const double &)', 'suffix': '_1'},
+        {'cxx': 'OnlineVariance::OnlineVariance', 'sig': 'const romea::core::OnlineVariance &', 'suffix': '_copy'},
+        {'cxx': 'OnlineVariance::setWindowSize'},
     ],
 }
 
